@@ -1,19 +1,22 @@
 #!/bin/bash
-# usage: tools/seedcheck.sh <ID> <outdir> [dest-name] : confirm a sub-agent's change, run the check on it, keep it under seeded/
+# usage: tools/seedcheck.sh <ID> <outdir> [dest-name] : confirm a sub-agent's change (applies to a scratch copy of /repo,
+# /repo itself is not touched), run the property's check on it, keep it under seeded/
 set -u
 ID=$1; OUT=$2; NAME=${3:-$ID}
-cd /repo || exit 2
-if ! git diff --quiet -- . ':!verif_contracts.go' ':!cmd/desync/verif_contracts.go'; then echo "/repo not clean"; exit 2; fi
-git apply "$OUT/patch.diff" || { echo "patch does not apply"; exit 2; }
 export GOFLAGS=-mod=mod GOPROXY=off GOSUMDB=off GOTOOLCHAIN=local
-go build ./... || echo BUILD-FAIL
-cd /verif && ./check $ID > /tmp/seedcheck-$NAME.txt 2>&1; rc=$?
-grep -E "VIOLATION|KNOWN|UNDECIDED|^$ID:" /tmp/seedcheck-$NAME.txt | cut -c1-220
+T=$(mktemp -d /tmp/gocv-seed-XXXXXX)
+trap 'rm -rf "$T"' EXIT
+rsync -a --exclude .git /repo/ "$T/repo/"
+( cd "$T/repo" && git apply "$OUT/patch.diff" ) || { echo "patch does not apply"; exit 2; }
+( cd "$T/repo" && go build ./... ) || echo BUILD-FAIL
+mkdir -p "$T/verif"
+for sub in stubs baseline replay; do cp -r /verif/$sub "$T/verif/" 2>/dev/null; done
+cp /verif/known_findings.json "$T/verif/" 2>/dev/null
+/verif/bin/gocv check $ID --repo "$T/repo" --verif "$T/verif" > /tmp/seedcheck-$NAME.txt 2>&1; rc=$?
+grep -E "VIOLATION|KNOWN|UNDECIDED|STALE|REPAIRED|^$ID:" /tmp/seedcheck-$NAME.txt | cut -c1-220
 echo "check rc=$rc"
-git -C /repo apply -R "$OUT/patch.diff" || echo REVERT-FAILED
 mkdir -p /verif/seeded/$NAME
 cp "$OUT"/patch.diff "$OUT"/meta.json /verif/seeded/$NAME/ 2>/dev/null
 cp "$OUT"/demo* /verif/seeded/$NAME/ 2>/dev/null
-grep -E "VIOLATION|^$ID:" /tmp/seedcheck-$NAME.txt | sed "s#/verif/replays#replays#" > /verif/seeded/$NAME/check_output.txt
+grep -E "VIOLATION|^$ID:" /tmp/seedcheck-$NAME.txt | sed "s#$T/verif/replays#replays#" > /verif/seeded/$NAME/check_output.txt
 echo "rc=$rc" >> /verif/seeded/$NAME/check_output.txt
-git -C /verif checkout -- evidence 2>/dev/null
